@@ -26,6 +26,8 @@ func vWInt(n int32) []byte  { return []byte{byte(n >> 24), byte(n >> 16), byte(n
 var vErrCodes = []int32{0x0000, 0x000A, 0x0100, 0x1000, 0x1001, 0x1002, 0x1003, 0x1100, 0x1200, 0x1300, 0x1400, 0x1500, 0x1600, 0x1700,
 	0x2000, 0x2100, 0x2200, 0x2300, 0x2400, 0x2500, 0x7777}
 
+var vDeepErrCodes = []int32{0x1100, 0x1200, 0x1300, 0x1500}
+
 // vFramePrefix: well-formed beginnings of response bodies, so that the arbitrary tail reaches the
 // deeper readers (every truncation / corruption after the prefix is covered by the symbolic tail).
 func vFramePrefix(op frameOp, id int) ([]byte, bool) {
@@ -33,6 +35,11 @@ func vFramePrefix(op frameOp, id int) ([]byte, bool) {
 	case opError:
 		if id < len(vErrCodes) {
 			return refCat(vWInt(vErrCodes[id]), vWStr("")), true
+		}
+		// deep beginnings: the fixed-size fields of the timeout / failure errors are present (consistency,
+		// received, block-for), so the tail reaches the write type, the v5 reason map and the data-present byte
+		if id-len(vErrCodes) < len(vDeepErrCodes) {
+			return refCat(vWInt(vDeepErrCodes[id-len(vErrCodes)]), vWStr(""), []byte{0, 1}, vWInt(1), vWInt(2)), true
 		}
 	case opResult:
 		switch {
